@@ -646,7 +646,9 @@ def refine_droplet(
 
     # enlarge the mask to also contain the shape change
     mask = droplet._get_phase_field(phase_field.grid, dtype=bool)
-    dilation_iterations = 1 + int(2 * droplet.interface_width)
+    # the interface width is a physical length, whereas the dilation proceeds in grid cells
+    width_cells = droplet.interface_width / phase_field.grid.typical_discretization
+    dilation_iterations = 1 + int(2 * width_cells)
     mask = ndimage.binary_dilation(mask, iterations=dilation_iterations)
 
     # apply the mask
